@@ -6,11 +6,14 @@ cd /repo || exit 9
 if ! git diff --quiet; then echo "repo dirty"; exit 9; fi
 git apply "$patch" || { echo "patch does not apply"; exit 9; }
 cd /verif
+# evidence files must describe runs on the unchanged tree: keep the committed one
+cp -f evidence/$prop.json /verif/build/evidence.$prop.saved 2>/dev/null
 start=$(date +%s)
 ./check "$prop" --tier "$tier" --seed "$seed" > /verif/build/seedrun.$$.log 2>&1
 rc=$?
 end=$(date +%s)
 git -C /repo checkout -- .
+[ -f /verif/build/evidence.$prop.saved ] && mv -f /verif/build/evidence.$prop.saved evidence/$prop.json
 grep -E "^(VIOLATION|KNOWN-FINDING|CHECK-ERROR|--- violation|C[0-9][0-9] tier)" /verif/build/seedrun.$$.log | head -12
 echo "seedrun: patch=$patch prop=$prop tier=$tier seed=$seed rc=$rc wall=$((end-start))s"
 rm -f /verif/build/seedrun.$$.log
